@@ -19,7 +19,7 @@ pub fn gen_case(seed: u64, hist: u64, plan: &str) -> SchedCase {
     p.small_cache = true;
     p.big_payloads = false;
     p.flush_pm = 150;
-    p.sync_pm = 30;
+    p.sync_pm = 70;
     p.min_ops = 15;
     p.max_ops = 50;
     p.reopen_pm = if r.chance(1, 3) { 30 } else { 0 };
@@ -53,11 +53,15 @@ pub struct C07Obs<'a> {
     pub max_removed: Option<LogId>,
     pub prev_model: Model,
     pub miss_seen: u64,
+    /// a snapshot (dump_data) taken earlier and not yet iterated, with the entries that were live then
+    pub held: Option<(raft_log::DumpRaftLog<crate::store::V>, Vec<(LogId, String)>, u32)>,
+    pub held_iterated: u64,
+    pub boundary_checks: u64,
 }
 
 impl<'a> C07Obs<'a> {
     pub fn new(case: &'a SchedCase, seed: u64) -> Self {
-        C07Obs { case, r: Rng::new(seed), reads: 0, iters: 0, entries: 0, points: Default::default(), reader_results: 0, max_removed: None, prev_model: Model::new(), miss_seen: 0 }
+        C07Obs { case, r: Rng::new(seed), reads: 0, iters: 0, entries: 0, points: Default::default(), reader_results: 0, max_removed: None, prev_model: Model::new(), miss_seen: 0, held: None, held_iterated: 0, boundary_checks: 0 }
     }
 
     fn track_truncations(&mut self, m: &Model) {
@@ -168,6 +172,50 @@ impl Observer for C07Obs<'_> {
             }
         }
         self.miss_seen = st.rl().stat().payload_cache_miss;
+        // a snapshot taken earlier is iterated a few observations later: it must still yield exactly the
+        // entries that were live when it was taken (later evictions, rotations and unlinks notwithstanding)
+        let mut due = false;
+        if let Some((_, _, age)) = self.held.as_mut() {
+            *age += 1;
+            due = *age >= 4;
+        }
+        if due {
+            let (mut snap, entries, _) = self.held.take().unwrap();
+            let got = crate::store::guarded(|| snap.iter().collect::<Result<Vec<_>, _>>());
+            self.held_iterated += 1;
+            // the D7 pattern can also hit a held snapshot; use the same classification
+            match got {
+                Ok(Ok(v)) if v == entries => {}
+                Ok(Ok(v)) => return Err(self.viol("held_snapshot_wrong", format!("a dump_data() snapshot iterated 4 observations after it was taken: {}", seq::diff_entries(&v, &entries)), info.step)),
+                Ok(Err(e)) => {
+                    let es = e.to_string();
+                    let class = if es.contains("Chunk not found") { "chunk_not_found" } else if es.contains("failed to fill whole buffer") { "closed_chunk_tail_not_written_yet" } else { "io" };
+                    if class != "io" && entries.iter().any(|(id, _)| Some(*id) <= self.max_removed) {
+                        return Err(self.viol(&format!("read_error:reappended_entry_not_above_removed_ids:{}", class), format!("held snapshot: {}", es), info.step));
+                    }
+                    return Err(self.viol("held_snapshot_error", format!("a dump_data() snapshot iterated 4 observations after it was taken failed: {}", es), info.step));
+                }
+                Err(p) => return Err(self.viol("held_snapshot_panic", p, info.step)),
+            }
+        } else if self.held.is_none() && self.r.chance(1, 5) {
+            self.held = Some((st.rl().dump_data(), want.clone(), 0));
+        }
+        // The eviction boundary after a completed flush with the worker idle is the last log id at the moment the
+        // newest chunk was started (its head snapshot): anything higher would make entries of the open chunk evictable.
+        if info.worker == WorkerAt::Idle && info.after_op && matches!(self.case.hist.steps.get(info.step).map(|s| &s.op), Some(Op::Sync)) && self.case.faults.is_empty() {
+            let chunks = crate::store::list_chunks(&st.dir);
+            if let Some((_, path)) = chunks.last() {
+                if let Ok(bytes) = std::fs::read(path) {
+                    if let Some((_, _, crate::model::Rec::State(hs))) = crate::refcodec::parse_file(&bytes).recs.first() {
+                        self.boundary_checks += 1;
+                        let b = st.rl().stat().payload_cache_last_evictable;
+                        if b > hs.last {
+                            return Err(self.viol("eviction_boundary_above_newest_chunk_head", format!("after flush + ack + idle the eviction boundary is {:?}, but the newest chunk was started when the last log id was {:?}: entries of the open chunk at or below {:?} are evictable although only the cache holds them", b, hs.last, b), info.step));
+                        }
+                    }
+                }
+            }
+        }
         Ok(())
     }
 
@@ -501,6 +549,8 @@ pub fn run_shard(ctx: &mut Ctx) {
             ctx.out.count("snapshot_iterations_checked", obs.iters);
             ctx.out.count("entries_read", obs.entries);
             ctx.out.count("concurrent_reader_results_checked", obs.reader_results);
+            ctx.out.count("held_snapshots_iterated_later", obs.held_iterated);
+            ctx.out.count("eviction_boundary_checks_after_sync", obs.boundary_checks);
             for (k, n) in &obs.points {
                 ctx.out.count(&format!("read_point:worker_{}", k), *n);
             }
